@@ -32,7 +32,7 @@ PROP = "C20"
 LEVEL = "exploration"
 RULE = (
     "(i) exhaustive: all sequences of <=3 symbols in quick (48k texts), <=4 in thorough (1.7M) over 36 symbols {A, b_c, 1, -2.5, 1.0.0, true, \"q s\", \", $V, [, ], ,, ::, :, ->, "
-    "→, ∧, vs, §, #, @, <x>, {y}, space, 2 spaces, newline, tab, ```, ===D===, ===END===, ---, //c, \\}; a seeded sample of sequences of length 5-6 (quick 60k, thorough 2M). (ii) Hypothesis: Unicode text <=300 (no surrogates), punctuation soups, deep brackets (50-140), long number "
+    "→, ∧, vs, §, #, @, <x>, {y}, space, 2 spaces, newline, tab, ```, ===D===, ===END===, ---, //c, \\}; thorough also every sequence of exactly 5 over a 30-symbol sub-alphabet (24.3M); a seeded sample of sequences of length 5-6 (quick 60k, thorough 1M). (ii) Hypothesis: Unicode text <=300 (no surrogates), punctuation soups, deep brackets (50-140), long number "
     "lexemes. (iii) 5 span mutations x ~40 packaged spec/schema/primer/fixture files x seeds. (iv) atheris (thorough, 8 forks x 6 min; "
     "quick replays the saved corpus). (v) 18 families x {n,4n,16n} CPU time. (vi) 4 tools x hostile content x flags, and histories of 2-4 octave_write calls on one path with structurally different documents (numbered / named / decimal section markers). Oracle: only "
     "LexerError/ParserError escape the reader, and it answers (10 CPU-second timer for inputs < 20 kB, a hang is confirmed with a 20 CPU-second limit in a fresh process); bracket depth >100 => ParserError; tools return JSON-serialisable envelopes with "
@@ -47,6 +47,9 @@ ASSUMPTIONS = [
 
 SYMS = ["A", "b_c", "1", "-2.5", "1.0.0", "true", '"q s"', '"', "$V", "[", "]", ",", "::", ":", "->", "→", "∧", "vs", "§", "#", "@", "<x>", "{y}", "<", ">", "A<b", " ", "  ",
         "\n", "\t", "```", "===D===", "===END===", "---", "//c", "\\"]
+
+
+SYMS_NOT_IN_LEN5 = {"b_c", "-2.5", "  ", "$V", "@", "A<b"}
 
 
 def own_errors():
@@ -221,6 +224,22 @@ def shard_tokens(ctx: Ctx, sh: int, nshards: int, max_len: int, sample: int) -> 
                     st.samples.append({"text": text})
             for sig, det in fails:
                 st.fail(sig, {"kind": "tokens", "syms": list(tup)}, det)
+    if ctx.tier == "thorough":
+        # the listed bound: every sequence of exactly 5 symbols over a 30-symbol alphabet (24.3 M; the six symbols left out
+        # are variants of kept ones: a second identifier, number, blank run, the variable, @ and the open annotation)
+        idx30 = [k for k, sym in enumerate(SYMS) if sym not in SYMS_NOT_IN_LEN5]
+        for tup in itertools.product(idx30, repeat=5):
+            i += 1
+            if i % nshards != sh:
+                continue
+            text = "".join(SYMS[k] for k in tup)
+            fails, nt = check_text(text, st, None)
+            st.evaluations += 1
+            if nt:
+                st.nontrivial_exact += 1
+            for sig, det in fails:
+                st.fail(sig, {"kind": "tokens", "syms": list(tup)}, det)
+        st.labels["tokseq_len5_alphabet30_exhaustive"] += 1
     if sample:
         rnd = random.Random(ctx.shard_seed(sh, 5))
         for _ in range(sample // nshards):
@@ -776,7 +795,7 @@ def shard_all(ctx: Ctx, sh: int, nshards: int) -> Stats:
     st = Stats()
     with scratch_dir() as scratch:
         _SCRATCH[0] = scratch
-        st.merge(shard_tokens(ctx, sh, nshards, ctx.pick(3, 4), ctx.pick(60000, 2_000_000)))
+        st.merge(shard_tokens(ctx, sh, nshards, ctx.pick(3, 4), ctx.pick(60000, 1_000_000)))
         st.merge(shard_text(ctx, sh, nshards, ctx.pick(400, 8000)))
         st.merge(shard_mut(ctx, sh, nshards, ctx.pick(40, 800)))
         st.merge(shard_histories(ctx, sh, nshards, ctx.pick(80, 1500)))
@@ -864,7 +883,8 @@ def shrink_candidates(case):
 def run(ctx: Ctx) -> Stats:
     st = run_sharded(shard_all, ctx)
     st.exhaustive = True
-    st.notes.append(f"token sequences of <= {ctx.pick(3, 4)} symbols over the {len(SYMS)}-symbol alphabet enumerated completely (the exhaustive flag refers to this part)")
+    st.notes.append(f"token sequences of <= {ctx.pick(3, 4)} symbols over the {len(SYMS)}-symbol alphabet enumerated completely (the exhaustive flag refers to this part)"
+                    + ctx.pick("", "; and every sequence of exactly 5 symbols over the 30-symbol sub-alphabet"))
     st.merge(run_sharded(shard_scaling, ctx, nshards=min(ctx.workers, 8), extra=(ctx.pick(500, 1500),)))
     if not ctx.quick:
         fuzz_campaign(ctx, st, seconds=360, forks=8)
